@@ -1,5 +1,6 @@
 """C01 - route resolution equals the plain rule-by-rule semantics."""
 import random
+import re
 
 from vf.engine import assume, cover
 from vf.query import Q
@@ -70,6 +71,8 @@ HAND = [
     ("cr-lit", RS(r(L("c/"), W("y"), L("/b")), r(L("c/d/b"))), False),
     ("deep", RS(r(W("a"), L("/"), W("b")), r(W("a"), L("/"), W("b"), L("/"), W("c")), r(L("x/"), W("b")), r(L("x/y/z"))), False),
     ("path-short", RS(r(L("p"), W("q", "path"), L("e")), r(L("p"), W("q", "path"), L("e/"), W("t")), r(L("px"))), False),
+    ("re-nested", RS(r(L("k/"), W("v", "re", "a(b(c)?)?")), r(L("k/"), W("v", "re", "a(b(c)?)?"), L("/z")), r(L("k/ab"))), False),
+    ("split-wild", RS(r(L("i/new")), r(L("i/nex")), r(L("i/"), W("id")), r(L("i/"), W("id"), L("/s"))), False),
     ("float", RS(r(L("v/"), W("f", "float")), r(L("v/"), W("f", "float"), L("/x")), r(L("v/1")), r(L("v/1.")),), True),
 ]
 
@@ -124,6 +127,7 @@ class Built:
     def __init__(self, rules, flavour):
         self.router = RadiRouter()
         self.accepted = []          # (spec, method, idx)
+        self.rejected = []
         self.rendered = []
         for idx, (spec, meth) in enumerate(rules):
             warm(spec)
@@ -135,7 +139,8 @@ class Built:
             handler.idx = idx
             try:
                 self.router.add(text, meth, handler)
-            except (RouteError, RadiDictKeyError, AssertionError) as e:   # rejected registration: not part of the set
+            except (RouteError, RadiDictKeyError, AssertionError, re.error) as e:   # rejected registration: not part of the set
+                self.rejected.append((idx, "%s (%s: %s)" % (text, type(e).__name__, str(e).split("\n")[0])))
                 continue
             self.accepted.append((spec, meth, idx))
         # groups: rules sharing position string (same pattern => same filters, else the later add was rejected)
@@ -204,10 +209,19 @@ def same(a, b):
     return a == b
 
 
-def make_resolve(rules, flavour, N, ascii_only, method=GET):
+EXPECT_REJECTED = {"path": {1}, "anon": {0, 2}, "path-short": {1}}
+
+
+def make_resolve(rules, flavour, N, ascii_only, method=GET, strict=False):
     built = Built(rules, flavour)
 
     def q(path: str):
+        if strict is not False and {i for i, _ in built.rejected} != strict:
+            # apart from the rules listed in EXPECT_REJECTED (a second filter on a node that already has one; an
+            # anonymous ':' wildcard followed by text) a hand-written set holds rules that are valid by the documented
+            # syntax: a router that cannot take one of them answers 'not found' for paths a rule of the set matches
+            return "rule set %r: rules rejected at registration %r, expected only numbers %r" % (
+                built.rendered, built.rejected, sorted(strict))
         assume(len(path) <= N)
         if ascii_only:
             for ch in path:
@@ -337,7 +351,7 @@ def queries(tier):
                 N = 7
             methods = [GET] if tag != "samepat" else [GET, POST, "PUT"]
             for m in methods:
-                fn, built = make_resolve(rules, fl, N, asc, m)
+                fn, built = make_resolve(rules, fl, N, asc, m, strict=False if tag.startswith("gen") else EXPECT_REJECTED.get(tag, set()))
                 out.append(Q("resolve/%s/f%d/%s" % (tag, fl, m), fn,
                              "rules %r; every path with <= %d code points%s; method %s" % (
                                  built.rendered, N, " (< 128)" if asc else " (any code point)", m),
